@@ -126,6 +126,14 @@ R11.4 config templates and mock templates are both created with Funcs(template_f
 		c.Fail("R11.1", "ParseTemplates|data-literal", r.Pos(fd.Pos()), "no TemplateData literal found")
 	} else {
 		d := newDT(info)
+		// the bindings may be computed by private helpers (the two directory forms, the Mock prefix): followed
+		d.callInline = map[*types.Func]*ast.FuncDecl{}
+		for fn, g := range pkgUnexported(cp) {
+			if g != fd && g.Recv == nil && fn.Name() != "mergeConfigs" && fn.Name() != "mergeStringMaps" {
+				d.callInline[fn] = g
+			}
+		}
+		d.hoistCalls = true
 		d.paths = nil
 		d.stmts(seedEnv(d, fd), fd.Body.List[:idx+1], func(p *dtPath) { d.finish(p, "end") })
 		const parent = "github.com/chigopher/pathlib.NewPath(ARG1.FileName).Parent<(github.com/chigopher/pathlib.Path).Parent>()"
